@@ -248,7 +248,7 @@ def run(ctx):
             continue
         seen.add(key)
         ctx.finding("layer:" + key, "layer of group %s: %s" % (b["group"], b["complaints"][0]), {"kind": "failing-input", "case": b})
-    if broken and not ctx.findings:
+    if broken and not ctx.unknown_findings():
         # directed search: the same layer given once with a non-periodic vector as long as an in-plane lattice parameter (a cell
         # spglib could mistake for a more symmetric 3D lattice if the vacuum were not normalised) and once with 15 A
         drng = np.random.default_rng(ctx.seed + 1111)
@@ -282,7 +282,7 @@ def run(ctx):
                             {"kind": "failing-input", "case": {"group": grp, "complaints": ["%s differs" % d for d in diff], "atoms": crystals.atoms_to_json(b1), "other": crystals.atoms_to_json(b2)}})
                 break
         ctx.coverage["directed_vacuum_pairs"] = tried
-    if broken and not ctx.findings:
+    if broken and not ctx.unknown_findings():
         ctx.finding("unproved", "proof/correspondence broken, no failing layer found", {"kind": "broken-obligation", "broken": broken}, found_input=False)
     ctx.coverage["broken"] = [{"what": k_, "info": i} for k_, i in broken]
     ctx.coverage["correspondence_mismatches"] = len(mism)
